@@ -5,6 +5,8 @@
 mod util;
 mod vals;
 mod c13;
+mod c07;
+mod c10;
 mod c05;
 mod c14;
 mod c16;
@@ -55,6 +57,8 @@ fn main() {
     let mut run = Run::new(&prop, seed, tier);
     match (mode.as_str(), prop.as_str()) {
         ("corr", "C13") => c13::corr(&mut run),
+        ("corr", "C07") => c07::corr(&mut run),
+        ("corr", "C10") => c10::corr(&mut run),
         ("corr", "C05") => c05::corr(&mut run),
         ("corr", "C14") => c14::corr(&mut run),
         ("corr", "C16") => c16::corr(&mut run),
